@@ -27,6 +27,12 @@ type connContext struct {
 	conn internalConn
 }
 
+// closedConnContext is a context of the closed context, it has no connection.
+var closedConnContext = &connContext{
+	CancelContext: async.CancelledContext(),
+	conn:          nil,
+}
+
 func newConnContext(conn internalConn) *connContext {
 	return &connContext{
 		CancelContext: async.NewContext(),
@@ -37,7 +43,7 @@ func newConnContext(conn internalConn) *connContext {
 // Disconnected returns a connection disconnected flag.
 func (c *connContext) Disconnected() async.Flag {
 	if c.conn == nil {
-		return async.UnsetFlag()
+		return async.SetFlag() // no connection, OnDisconnected reports already closed
 	}
 	return c.conn.Closed()
 }
